@@ -12,7 +12,7 @@ format-constraint call made with a key owned by element e saw exactly e's entere
 
 from sim import env  # noqa: F401
 from sim.canon import Pre, canon, dumps
-from sim.gen_ahb import build_node, walk
+from sim.gen_ahb import attribute_items, build_node, walk
 from sim.gen_expr import FORBIDDEN_FC, gen_valid, render
 from sim.prf import PROFILES, rng
 from sim.props.ahbcommon import (
@@ -318,17 +318,17 @@ def execute(scenario):
             if not is_exception(outcome, "NotImplementedError"):
                 fail(verdict, "validation-crashed", f"{rid}: {outcome}")
             continue
-        # match the reported items with the nodes of the AHB: reported discriminators are a subsequence of the
-        # document order (nodes below forbidden parents are missing); discriminators may repeat among siblings
+        # which node an item belongs to: by position in the document order (discriminators may repeat; what is missing
+        # from the report is what lies below a node the report itself calls forbidden)
         nodes = list(walk(request["op"]["ahb"]))
-        reported_by_position, cursor = {}, 0
-        for item in outcome["ok"]:
-            while cursor < len(nodes) and nodes[cursor][0]["d"] != item["discriminator"]:
-                cursor += 1
-            if cursor == len(nodes):
-                break
-            reported_by_position[cursor] = item["validation_result"]
-            cursor += 1
+        positions = attribute_items(request["op"]["ahb"], outcome["ok"])
+        if positions is None:
+            # the report does not cover the tree the way C13 states it: C13's to judge, nothing to pair elements with
+            verdict["probes"]["report_does_not_fit_tree"] = verdict["probes"].get("report_does_not_fit_tree", 0) + 1
+            continue
+        reported_by_position = {
+            position: item["validation_result"] for position, item in zip(positions, outcome["ok"])
+        }
         position_of = {id(n): i for i, (n, _) in enumerate(nodes)}
         for position, (node, parent) in enumerate(nodes):
             if node["t"] != "f" or position not in reported_by_position:
